@@ -952,6 +952,8 @@ def _only_through(prog, g: FuncInfo, q: str, m: str, depth: int = 0) -> ast.AST 
         pa = _parent(x)
         if isinstance(pa, ast.Attribute) and pa.attr == m and isinstance(_parent(pa), ast.Call) and _parent(pa).func is pa and not _parent(pa).args:
             continue
+        if isinstance(pa, ast.keyword):
+            pa = _parent(pa)
         if isinstance(pa, ast.Call) and depth < 2 and (x in pa.args or any(k.value is x for k in pa.keywords)):
             t_ = prog.resolve_call(g, pa)
             if isinstance(t_, list) and len(t_) == 1 and not isinstance(t_[0].node, ast.Lambda):
@@ -999,6 +1001,8 @@ def _check_canonical_key(ctx: Ctx, fi: FuncInfo, node: Node, t: ast.Subscript) -
             pa = parents.get(id(x))
             if isinstance(pa, ast.Attribute) and pa.attr == m and isinstance(parents.get(id(pa)), ast.Call) and not parents[id(pa)].args:
                 continue
+            if isinstance(pa, ast.keyword):
+                pa = parents.get(id(pa))
             if isinstance(pa, ast.Call) and (x in pa.args or any(k.value is x for k in pa.keywords)):
                 # the copy is not in the function's tree: resolve through the original call of the same text
                 orig = next((c for c in ast.walk(node.ast.value) if isinstance(c, ast.Call) and norm(c) == norm(pa)), None)
